@@ -82,3 +82,23 @@ package server
 //@   requires s != nil && dbInv(s.db)
 //@   ensures [C01,C08 delete.handler-deny] !allows(id.Permissions, "delete", req.Name) ==> (errIs(err, db.ErrAccessDenied) && noEffect(s.db))
 //@   ensures [C01,C02,C08 delete.handler] dbInv(s.db) && ((err == nil && !hasPrefix(req.Name, "_internal/")) ==> !has(s.db.kv.secrets, req.Name))
+
+// ---- backups ------------------------------------------------------------------------------------
+//@ func (*Server).doBackup(s, ctx) (err)
+//@   requires s != nil && dbInv(s.db) && s.backupClient != nil && ctx != nil
+//@   ensures [C17 backup.inv] dbInv(s.db) && noEffect(s.db) && clock >= old(clock)
+//@   ensures [C17 backup.body-is-file] err == nil ==> (uploads == old(uploads) + 1 && lastUploadBody == diskData(disk, s.db.kv.path) && diskHas(disk, s.db.kv.path))
+//@   ensures [C17 backup.fail-no-object] err != nil ==> uploads == old(uploads)
+//@   ensures [C17 backup.one-attempt] (uploadAttempts == old(uploadAttempts) && uploads == old(uploads)) || (uploadAttempts == old(uploadAttempts) + 1 && lastAttemptAt >= old(clock) && lastAttemptAt <= clock)
+//@   at call PutObject: assert [C17 backup.bounded-5min] hasDeadline(arg_ctx) && deadlineOf(arg_ctx) <= old(clock) + 300000000000 + (clock - old(clock))
+
+//@ func (*Server).periodicBackup(s, ctx)
+//@   requires s != nil && dbInv(s.db) && s.backupClient != nil && ctx != nil
+//@   ensures [C17 loop.terminates-only-on-cancel] chanFired(doneChan(ctx))
+//@   at call doBackup: assert [C17 loop.change-driven] call_WriteGen != lastWriteGen
+//@   at call doBackup: assert [C17 loop.rate] uploadAttempts == old(uploadAttempts) || clock >= lastAttemptAt + 60000000000
+//@   loop 0
+//@     invariant [state] s != nil && dbInv(s.db) && s.backupClient != nil && ctx != nil && clock >= old(clock)
+//@     invariant [rate] uploadAttempts == old(uploadAttempts) || clock >= lastAttemptAt + 60000000000
+//@     progress [C17 loop.quiescent] waits > iterstart(waits)
+//@     progress [C17 loop.retry-after-failure] lastWriteGen == iterstart(lastWriteGen) || (lastWriteGen == call_WriteGen && call_doBackup == nil)
